@@ -103,42 +103,46 @@ func blockToSeqPair(alignedBlock alignedBlockInfo, ref []byte) alignPair {
 	if len(insertions) > 0 {
 		sort.Sort(byStart(insertions))
 
-		// if we are going to insert multiple insertions into one pair then we will need to keep track
-		// of the coordinate offset after the first one
-		offsets := make([]int, len(alignedBlock.seqpairArray))
-
 		// for every insertion
 		for _, insertion := range insertions {
 			// this is the pair it is already present in, which we will skip:
 			rowNumber := insertion.rowNumber
-			for j, seqPair := range alignedBlock.seqpairArray {
+			for j := range alignedBlock.seqpairArray {
 				// don't reinsert - the insertion already exists in this one
 				if j == rowNumber {
 					continue
 				}
 
-				// if the insertions starts after the (offset) length of this sequence,
-				// we don't have to do anything to this pair here
-				if insertion.start > len(alignedBlock.seqpairArray[j].ref)-offsets[j] {
+				// find the column that follows insertion.start reference bases in this pair, which
+				// depends on the gap columns (its own insertions, and earlier ones from the other pairs) it already has
+				col, refBases := 0, 0
+				for col < len(refSeqArray[j]) && refBases < insertion.start {
+					if refSeqArray[j][col] != '-' {
+						refBases++
+					}
+					col++
+				}
+
+				// if this pair ends before the insertion starts, we don't have to do anything to it here
+				if refBases < insertion.start {
 					continue
 				}
 
-				// otherwise, we make a slice of gaps to insert into the slices
+				// otherwise, we make a slice of gaps to insert into (copies of) the slices
 				gaps := make([]byte, insertion.length)
 				for k := range gaps {
 					gaps[k] = '-'
 				}
 
-				refSeqArray[j] = refSeqArray[j][:insertion.start+offsets[j]]
-				refSeqArray[j] = append(refSeqArray[j], gaps...)
-				refSeqArray[j] = append(refSeqArray[j], seqPair.ref[insertion.start+offsets[j]:]...)
+				newRef := make([]byte, 0, len(refSeqArray[j])+insertion.length)
+				newRef = append(newRef, refSeqArray[j][:col]...)
+				newRef = append(newRef, gaps...)
+				refSeqArray[j] = append(newRef, refSeqArray[j][col:]...)
 
-				queSeqArray[j] = seqPair.query[:insertion.start+offsets[j]]
-				queSeqArray[j] = append(queSeqArray[j], gaps...)
-				queSeqArray[j] = append(queSeqArray[j], seqPair.query[insertion.start+offsets[j]:]...)
-
-				// and we add the relevant offset to account for this insertion in future coordinates
-				offsets[j] += insertion.length
+				newQue := make([]byte, 0, len(queSeqArray[j])+insertion.length)
+				newQue = append(newQue, queSeqArray[j][:col]...)
+				newQue = append(newQue, gaps...)
+				queSeqArray[j] = append(newQue, queSeqArray[j][col:]...)
 			}
 		}
 	}
